@@ -56,8 +56,16 @@ def sweep(ctx):
         ref = [l for sub, l in vs if sub == ()]
         ref = ref[0] if ref else vs[0][1]
         if not ref.startswith("OK"):
-            stats["base rejected (generator bug)"] += 1
-            continue
+            oks = [(sub, l) for sub, l in vs if l.startswith("OK")]
+            if not oks:
+                stats["every variant rejected (generator bug)"] += 1
+                continue
+            # the base program (correct annotations) is rejected although another annotation variant is accepted
+            v = tg.real_verdict(ref)
+            sub0, ref = oks[0]
+            viol.append((None, "acceptance-differs", (), tg.render(t), tg.render(t, erase=sub0),
+                         "the base program is rejected (%s line %s) although the variant with sites %s flipped is accepted"
+                         % (v[1] if len(v) > 1 else v[0], v[3] if len(v) > 3 else "?", list(sub0))))
         for sub, l in vs:
             stats["variants"] += 1
             if l.startswith("OK"):
